@@ -101,6 +101,16 @@ def run_shard(spec, tier, seed):
             for sp in range(3):
                 vectors[f"awkward:{route}:{sp}"] = awk.build(system, rows, True, awk.structures(n)["jagged"], route=route, spelling=sp)
         vectors["awkward-record"] = awk.build(system, rows, True, list(range(n)), route="zip")[1]
+        # mixed spellings: every coordinate spelled on its own (px with y, x with py, pt with phi and M, ...), hand-zipped
+        # (with_name keeps the field names) and through vector.zip
+        import itertools as _it
+        per_coord = [[g] + list(B.MOM_SPELL[g]) for g in R.field_names(system)]
+        combos = [c for c in _it.product(*per_coord) if any(x in B.GENERIC_OF for x in c) and any(x not in B.GENERIC_OF and B.MOM_SPELL[x] for x in c)]
+        step = max(1, len(combos) // 24)
+        for ci, combo in enumerate(combos[::step][:30]):
+            for route in ("with_name", "zip"):
+                vectors[f"awkward:{route}:mixed{ci}:" + "+".join(combo)] = awk.build(system, rows, True, awk.structures(n)["jagged"], route=route,
+                                                                                     names_override=combo)
     syms = [sympy.Symbol(nm, real=True) for nm in R.field_names(system)]
     symcls = getattr(vector, f"MomentumSympy{dim}D")
     vectors["sympy"] = symcls(**dict(zip(R.field_names(system), syms)))
